@@ -54,6 +54,20 @@ func makeTree(r *gen.Rand, dir string, depth int) {
 	}
 }
 
+// makeTwins puts a work tree "x" and a bare repository "x.git" side by side (both are named "x"), at the top of the root
+// or one level down: a name collision inside a single root.
+func makeTwins(r *gen.Rand, root string) {
+	dir := root
+	if r.Bool() {
+		dir = filepath.Join(root, gen.Pick(r, []string{"team", "deep", "grp"}))
+	}
+	n := gen.Pick(r, []string{"proj", "a", "lib", "é"})
+	if os.MkdirAll(filepath.Join(dir, n, ".git"), 0o755) != nil {
+		return
+	}
+	os.MkdirAll(filepath.Join(dir, n+".git", "objects"), 0o755)
+}
+
 func discoverTreeCase(t *l1sync.Tool, base string, r *gen.Rand, i int) gen.Case {
 	top := filepath.Join(base, fmt.Sprintf("d%d", i))
 	var rootDirs []string
@@ -64,6 +78,9 @@ func discoverTreeCase(t *l1sync.Tool, base string, r *gen.Rand, i int) gen.Case 
 			continue // a file or fifo of an earlier root is in the way
 		}
 		makeTree(r, d, 0)
+		if r.Chance(1, 4) {
+			makeTwins(r, d)
+		}
 		rootDirs = append(rootDirs, d)
 	}
 	if len(rootDirs) == 0 {
